@@ -21,7 +21,10 @@ stateful downstream operators, the timing of `render_aggregate`'s loop).
                                for every refresh schedule and every operator state.
 * `C16_not_tty`                not a terminal: exactly one write, the final table, nothing else.
 * `C16_catch_up`               after two consecutive `Timeout` iterations the frame on display
-                               covers everything received.
+                               covers everything received (one step, from any consistent state).
+* `C16_idle_catch_up`          the clause for every arrival pattern: any sequence of row / timeout
+                               iterations from the start of the loop, followed by two idle poll intervals,
+                               leaves the table of ALL rows received on display (induction over the events).
 -/
 import AgModel.Term
 
@@ -599,6 +602,72 @@ theorem C16_catch_up (l : Loop) (k1 k2 : Tick) (hi : LoopInv l)
       simp [shouldPrint, hL, updateInterval] at *
       omega
     simp [Loop.step, hsp, t2]
+
+theorem loopInv_run : ∀ (ks : List Tick) (l : Loop), LoopInv l → TicksOk l ks → LoopInv (l.run ks) := by
+  intro ks
+  induction ks with
+  | nil => intro l hi _; exact hi
+  | cons k ks ih =>
+    intro l hi hok
+    exact ih (l.step k) (loopInv_step l k hi hok.1) hok.2
+
+theorem ticksOk_append : ∀ (ks : List Tick) (l : Loop) (js : List Tick),
+    TicksOk l (ks ++ js) ↔ TicksOk l ks ∧ TicksOk (l.run ks) js := by
+  intro ks
+  induction ks with
+  | nil => intro l js; simp [TicksOk, Loop.run]
+  | cons k ks ih =>
+    intro l js
+    simp only [List.cons_append, TicksOk, Loop.run, ih (l.step k) js]
+    constructor
+    · rintro ⟨h1, h2, h3⟩; exact ⟨⟨h1, h2⟩, h3⟩
+    · rintro ⟨⟨h1, h2⟩, h3⟩; exact ⟨h1, h2, h3⟩
+
+theorem run_append : ∀ (ks : List Tick) (l : Loop) (js : List Tick),
+    l.run (ks ++ js) = (l.run ks).run js := by
+  intro ks
+  induction ks with
+  | nil => intro l js; rfl
+  | cons k ks ih => intro l js; simp [Loop.run, ih]
+
+theorem step_received (l : Loop) (k : Tick) :
+    (l.step k).received = l.received + (if k.isRow then 1 else 0) := by
+  by_cases hp : shouldPrint l.lastPrint k.tCheck = true <;> cases hr : k.isRow <;> simp [Loop.step, hp, hr]
+
+theorem run_received : ∀ (ks : List Tick) (l : Loop), (l.run ks).received = l.received + rowCount ks := by
+  intro ks
+  induction ks with
+  | nil => intro l; simp [Loop.run, rowCount]
+  | cons k ks ih =>
+    intro l
+    simp only [Loop.run, ih, step_received, rowCount]
+    omega
+
+/-- **C16_idle_catch_up.**  The clause "while input is idle the display catches up with everything
+received so far within a bounded delay", for EVERY arrival pattern: start the loop, let any
+sequence of iterations happen (rows arriving at any pace — inside or outside the 50 ms throttle
+window — and timeouts, in any order, with a consistent clock), then let the input be idle for two
+poll intervals (two `Timeout` iterations).  The frame on display then covers every row that has
+arrived.  By induction over the event list (`loopInv_run`), then `C16_catch_up`. -/
+theorem C16_idle_catch_up (arrivals : List Tick) (k1 k2 : Tick)
+    (hok : TicksOk {} (arrivals ++ [k1, k2])) (t1 : k1.isRow = false) (t2 : k2.isRow = false) :
+    (Loop.run {} (arrivals ++ [k1, k2])).shown = some (rowCount arrivals) ∧
+    (Loop.run {} (arrivals ++ [k1, k2])).received = rowCount arrivals := by
+  obtain ⟨hok1, hok2⟩ := (ticksOk_append arrivals {} [k1, k2]).mp hok
+  have hinv := loopInv_run arrivals {} loopInv_init hok1
+  simp only [TicksOk, and_true] at hok2
+  have hc := C16_catch_up (Loop.run {} arrivals) k1 k2 hinv hok2.1 hok2.2 t1 t2
+  have hr : (((Loop.run {} arrivals).step k1).step k2).received = rowCount arrivals := by
+    rw [step_received, step_received, run_received]
+    simp [t1, t2]
+  rw [run_append]
+  simp only [Loop.run]
+  exact ⟨by rw [hc, hr], hr⟩
+
+/-- the seeded change "a `Timeout` iteration does not redraw" breaks exactly this: a burst of five
+rows inside one throttle window, then idle — the unchanged loop shows 5 -/
+example : (Loop.run {} [⟨true, 0, 0⟩, ⟨true, 1, 1⟩, ⟨true, 2, 2⟩, ⟨true, 3, 3⟩, ⟨true, 4, 4⟩,
+    ⟨false, 54, 55⟩, ⟨false, 105, 106⟩]).shown = some 5 := by decide
 
 /-- non-vacuity of `C16_catch_up`: a loop that printed at time 10, two timeouts at 60 and 110 -/
 example : LoopInv { received := 3, shown := some 1, lastPrint := some 10, now := 10 } ∧
